@@ -58,6 +58,10 @@ def run_seq(rng, res, kind, ty, nops):
             res.extra["model_ops"] = res.extra.get("model_ops", 0) + 1
             if m is None:
                 res.broken.append("c17_driver died on %r" % line); return
+            if m.startswith("err:"):
+                if len(res.mismatches) < 5:
+                    res.mismatches.append(("# model session (build/c17_driver %s):\n%s" % (ty, "\n".join(mlog[-400:])), "the models disagree among themselves or fail: " + m))
+                return
             if engine_answer is None:
                 return
             e = engine_answer
@@ -88,7 +92,15 @@ def run_seq(rng, res, kind, ty, nops):
             r = rng.random()
             k = rnd_key(rng, ty, pool)
             kt = keytok(ty, k)
-            if r < 0.45:
+            if r < 0.03 and ref and kind in "sb":
+                # insert an entry that is there already (several times): it stays there exactly once
+                (k, rid) = rng.choice(sorted(ref, key=lambda e: (str(e[0]), e[1])))
+                for _ in range(rng.choice([1, 3, 40, 250])):
+                    a = db.cmd("ixins t 0 %s %d %d" % (keytok(ty, k), rid[0], rid[1]))
+                    mirror("ins %s %d %d" % (mk(k), rid[0], rid[1]), None)
+                    if db.dead or a.startswith("panic"):
+                        break
+            elif r < 0.45:
                 if uniq and rids_of(k):
                     continue                      # duplicates are outside a unique index's contract
                 rid = new_rid()
